@@ -123,7 +123,7 @@ func init() {
 		QuickS: 30, ThoroughS: 900, DetSamples: 32, DetSamplesT: 300,
 		Rule: "import slice of C07. One run = d2compiler.Compile of index.d2 (imports of a generated file set in front of a harvested or minimal program) over a simulated file system: 1-4 importable files in nested directories whose import graph (spread imports, value imports, imports inside maps and layers, import keys, relative paths with '..', optional .d2 extension, cycles of every length, missing files, directories, absolute paths, malformed import statements) and bodies (globs, triple globs, substitutions and spread substitutions resolved by the importer or by nobody, classes, boards, nulls) come from the tape; every Open/Read is served one-shot or in tape-chosen chunks (1 byte ... 4097 bytes, empty reads, data together with EOF), fails at open, fails after k bytes, is a directory, or serves other content from the second open on. Compared against a reference model of the import graph and against one-shot delivery. Distinct = distinct (main, import graph).",
 		Assumptions: []string{
-			"slice: the file-system side of C07 (importable files, their delivery and failures, import cycles, termination counted in file-system operations: at most 4000 opens per compilation and 8*size+2000 reads per file). Totality over all programs is sampled only (harvested corpus in index order + snippets), and CPU time is not observed",
+			"slice: the file-system side of C07 (importable files, their delivery and failures, import cycles, termination counted in file-system operations: at most 100 000 opens per compilation and 8*size+2000 reads per file). Totality over all programs is sampled only (harvested corpus in index order + snippets), and CPU time is not observed",
 			"a broken file stays broken: the fault kind is chosen per file, because the compiler opens some imports twice and rightly ignores a failure of the first, tentative open",
 			"the cycle oracle is applied only when the model knows every import (the harvested part of index.d2 contains no import of its own and the file parses)",
 		},
